@@ -60,7 +60,8 @@ def run_case(spec):
             now = H.ts(op["t"])
             r.time(now)
         elif k == "startTest":
-            cur = H.make_test(op["i"], op["tk"])
+            # the same test id may be reported more than once in a run (re-runs, parametrised scenarios)
+            cur = H.make_test(op["i"] % spec.get("id_mod", 99), op["tk"])
             mark = len(rec.events)
             r.startTest(cur)
             tags.start_test()
@@ -216,6 +217,13 @@ def run_case(spec):
                 ["kind=" + e["kind"] for e in expected[:3]], {"final_events": [e[0] for e in ext.events][:20]})
 
 
+@st.composite
+def s_case(draw):
+    h = draw(HIST)
+    h["id_mod"] = draw(st.sampled_from([99, 99, 2, 1]))
+    return h
+
+
 def subchecks(tier):
     q = tier == "quick"
-    return [Sub("roundtrip_histories", run_case, HIST, 2000 if q else 120000)]
+    return [Sub("roundtrip_histories", run_case, s_case(), 2000 if q else 120000)]
